@@ -57,6 +57,11 @@ claimed["C15"] = dict(
    note="Trusted: govc and the SMT solvers; types.ObjectString / strings.Fields described by uninterpreted functions (a printed constant has at least two non-empty fields); unions are never empty (established by fetchPkgUnions and createType under C11, a precondition here); callees without contract are havocked. NOT decided — and known to be false on the tree for recursive types: termination of the emitted functions (the generator emits an unconditional call per element with slice length >= 3, so every cyclic type diverges), the values they return, their variation under different seeds, the JSON round trip: all of that is the run-time meaning of emitted Go, which this family cannot express. A pass of this check must not be read as 'C15 holds'.",
    ref="DESIGN §4 C15")
 
+claimed["C16"] = dict(
+   text="Kernel claim (" + KERNEL_NOTE + "). Proved for all inputs: newCustomQuery — over the list of `field = $name$` matches of the comment, there is exactly one input per distinct placeholder name, taken from the first occurrence of the name and typed like the field it is compared with there, the inputs are in order of first occurrence, and the replacer maps $name$ of the k-th input to $k+1 (31 obligations, no choice function); processComments — the SQL comments kept as constraints are exactly the SQL comments that are not select keys, queries only go to CustomQueries, earlier constraints are untouched; the word-replacement closure of TableNameReplacer.Replace — a word is replaced exactly when it is a key of the replacer, by its value, otherwise returned unchanged; the closure after REFERENCES — the name is replaced by its SQL table name; generateCustomConstraint — an ADD constraint is attached to the SQL table of the struct carrying the comment; the closure of ReplaceEnums — the placeholder is replaced by the SQL literal of the constant (numbers as written, strings single-quoted) of the named enum; generateCustomQueries — one parameter (name, printed type) and one argument per input, in input order. One genuine defect found and repaired (string enum placeholders were double-quoted, b6c7d0b).",
+   note="Trusted: govc and the SMT solvers; regexp (FindAllStringSubmatch returns one group list of length 3 per match; ReplaceAllStringFunc applies the closure to every match and keeps the rest: the engine itself is not modelled), strings.Cut / ReplaceAll / NewReplacer, fmt.Sprintf as uninterpreted functions; the classifiers isSelectKey / isUniqueConstraint are functions of the comment. Call-argument clauses (callarg) pin what is handed to Sprintf, not the template text. Not decided: which struct a comment is attributed to (fetchStructComments navigates the syntax tree by position), regular-expression semantics (what counts as a word, as a placeholder), the SQL meaning of the result.",
+   ref="DESIGN §4 C16")
+
 not_applicable = {
  "C01": "type-checking of emitted Go text for all inputs needs a typing judgement over Sprintf templates; no contract on a Go function returning a string can express it (DESIGN §5)",
  "C02": "round trip and wire bytes are run-time behaviour of the emitted wrappers under encoding/json; a contract on the generator can only restate its templates (DESIGN §5)",
